@@ -66,6 +66,10 @@ def cases(chk):
             sid[0] += 1
             return sid[0]
         yield "reconnect", {"work": [[fresh3() for _i in range(r.randint(1, 3))] for _t in range(nt)], "delay": r.randint(0, 12), "seed": r.randrange(1 << 30)}
+        if _ % 2 == 0:
+            # ... with a login that takes a while (senders call during the handshake; the worker thread completes it)
+            yield "reconnect", {"work": [[fresh3() for _i in range(r.randint(2, 4))] for _t in range(nt)], "delay": r.randint(0, 6), "seed": r.randrange(1 << 30),
+                                "handshake": r.choice([1, 2, 4, 8, 15])}
     for _ in range(chk.scale(60, 1500)):
         yield "dispatcher", {"frames": [r.randint(1, 40) for _i in range(r.randint(1, 5))], "flushes": r.randint(1, 6), "seed": r.randrange(1 << 30)}
     if not chk.quick():
@@ -371,11 +375,28 @@ def run_reconnect(chk, case):
         return orig_new()
     noise._new_noiseprotocol = new_protocol
 
+    hs = case.get("handshake", 0)
+
     def network():
         for _ in range(case["delay"]):
             coop.point()
         bottom.emitEvent(YowLayerEvent(YowNetworkLayer.EVENT_STATE_DISCONNECTED, reason="lost"))
-        _arm_session(noise, 2)
+        if not hs:
+            _arm_session(noise, 2)
+            return
+        # the new login takes a while: the protocol object of the new attempt is in its handshake state while senders keep calling, and it
+        # is the handshake worker's thread that brings the session up and tells the layer
+        from consonance.protocol import WANoiseProtocol
+        p = noise._wa_noiseprotocol
+        p._machine.set_state("handshake")
+        p._last_triggered_state = "handshake"
+
+        def worker():
+            for _ in range(hs):
+                coop.point()
+            _arm_session(noise, 2)
+            noise._on_protocol_state_changed(WANoiseProtocol.STATE_TRANSPORT, noise._wa_noiseprotocol)
+        c.spawn(worker)
     c.spawn(network)
     err = None
     try:
